@@ -658,4 +658,32 @@ theorem integrateMC_quantifier_accepted (d : Nat) (n : Int) (vegas : Bool) (hd :
     rintro (h | h | h | ⟨_, h⟩) <;> omega
   simpa using h
 
+/-! ## The caller's region is read-only (seed C14-p) -/
+
+/-- the sub-regions handed to the two recursive calls are NEW lists (`subRegion`): whatever they are, the list `region` the
+    caller passed is the same value before, during and after the integration - in particular when the integrand aborts it.
+    An in-place bisection followed by a restore agrees with this only if the restore is reached: -/
+theorem subRegion_restore (region : List Rat) (dim jb : Nat) (mid : Rat) (h : dim + jb < region.length) :
+    (subRegion region dim jb mid true).set (dim + jb) (at_ region (dim + jb)) = region := by
+  unfold subRegion at_
+  simp only [if_true]
+  rw [List.set_set]
+  apply List.ext_getElem
+  · simp
+  · intro i h1 h2
+    by_cases e : dim + jb = i
+    · subst e; simp [List.getD_eq_getElem?_getD, h]
+    · simp [List.getElem_set_ne e]
+
+/-- without the restore (an integrand that throws inside the left half) the in-place vector is the LEFT sub-box, a different
+    region whenever the bisection point differs from the upper bound -/
+theorem subRegion_left_differs (region : List Rat) (dim jb : Nat) (mid : Rat) (h : dim + jb < region.length)
+    (hne : mid ≠ at_ region (dim + jb)) : subRegion region dim jb mid true ≠ region := by
+  unfold subRegion at_ at *
+  simp only [if_true]
+  intro heq
+  have := congrArg (fun l => l.getD (dim + jb) 0) heq
+  simp [List.getD_eq_getElem?_getD, h] at this
+  exact hne (by simpa [List.getD_eq_getElem?_getD, h] using this)
+
 end Lp.C14
